@@ -20,6 +20,20 @@ from harness.common import QUICK, SEED, Check
 NUC = ["A", "C", "G", "T"]
 
 
+MALFORMED = -99      # a token that is not what the VCF grammar allows at that place: never equal to an expected value
+
+
+def tok_int(x):
+    try:
+        return int(x)
+    except ValueError:
+        return MALFORMED
+
+
+def tok_allele(x):
+    return gen.ALLELES.index(x) if x in gen.ALLELES else MALFORMED
+
+
 def parse_vcf(text, names_expected):
     contig = None
     names = None
@@ -32,9 +46,9 @@ def parse_vcf(text, names_expected):
         elif not line.startswith("#"):
             f = line.split("\t")
             alt = [] if f[4] == "." else f[4].split(",")
-            recs.append(dict(pos=int(f[1]), id=int(f[2]), ref=gen.ALLELES.index(f[3]), alt=[gen.ALLELES.index(x) for x in alt],
+            recs.append(dict(pos=tok_int(f[1]), id=tok_int(f[2]), ref=tok_allele(f[3]), alt=[tok_allele(x) for x in alt],
                              fixed=[f[0], f[5], f[6], f[7], f[8]],
-                             gt=[[(-1 if x == "." else int(x)) for x in g.split("|")] for g in f[9:]]))
+                             gt=[[(-1 if x == "." else tok_int(x)) for x in g.split("|")] for g in f[9:]]))
     return contig, names, recs
 
 
